@@ -716,6 +716,7 @@ contract(
         "only-non-export-bases": f"all(glyph.log_pens[k].include == self.options.skipExportGlyphs and not glyph.log_pens[k].decomposeNested for k in {_NEWPENS})",
     },
     # iff a base that is to be inlined (a non-export glyph) is missing from the glyph set
+    # iff a base that is to be inlined (a non-export glyph) is missing from the glyph set
     raises={"MissingComponentError": "any(c.baseGlyph in self.options.skipExportGlyphs and c.baseGlyph not in self.context.glyphSet for c in glyph.components)"},
     canaries={"never-changes": "not result"},
 )
